@@ -40,6 +40,25 @@ theorem writable_statics_never_written :
        ("szddd.c", "szdd_signature_qbasic", "static unsigned char szdd_signature_qbasic[8] = {")] := by
   decide
 
+/-- libc entry points that keep no process-wide mutable state of their own (POSIX "MT-Safe" without the `race`,
+    `const:locale` or `env` writer annotations): memory and string functions, the allocator, stdio on a `FILE *` the
+    caller owns, wide-character classification (reads the locale, never sets it), integer helpers.  Deliberately
+    absent: `setlocale`, `strtok`, `rand`/`srand`, `strerror`, `localtime`/`gmtime`/`ctime`/`asctime`, `getenv`/`setenv`/
+    `putenv`, `tmpnam`, `signal`, `atexit`, `chdir`, `umask`, `readdir`, `basename`/`dirname`, `getpwnam`, … -/
+def stateFreeLibc : List String :=
+  ["memcmp", "memcpy", "memmove", "memset", "memchr", "strlen", "strcmp", "strncmp", "strcpy", "strncpy", "strcat",
+   "strncat", "strchr", "strrchr", "strstr", "strnlen", "strdup", "strcasecmp", "strncasecmp",
+   "malloc", "calloc", "realloc", "free",
+   "fopen", "fclose", "fread", "fwrite", "fseek", "fseeko", "ftell", "ftello", "fflush", "ferror", "feof", "fputc", "fputs",
+   "fprintf", "vfprintf", "snprintf", "vsnprintf", "sprintf", "stderr",
+   "towlower", "towupper", "tolower", "toupper", "abs", "labs",
+   "__stack_chk_fail", "__memcpy_chk", "__memset_chk", "__fprintf_chk", "__vfprintf_chk", "__fread_chk",
+   "__strcpy_chk", "__strncpy_chk", "__snprintf_chk", "__sprintf_chk"]
+
+/-- everything today's library objects import from outside the library is such a function: no call can reach
+    process-wide state that another thread's instance also uses (the locale, `strtok`'s cursor, the environment, …) -/
+theorem imports_state_free : ∀ s ∈ externalImports, s ∈ stateFreeLibc := by decide
+
 /-! ## interleavings -/
 
 inductive Tag (α : Type) | a (x : α) | b (x : α)
